@@ -67,6 +67,96 @@ theorem C04_carryIn_appends (c : Cfg) (tob : Option Tob) (force : Bool) (s : St)
     · exact ⟨_, upd_same _ _ _, hpre, rfl⟩
     · exact ⟨r, hrec, List.prefix_refl _, rfl⟩
 
+/-! ### `untrack --restore-versions`
+
+  The copy of a version can fail for reasons outside xvc (`blocked`: something in the way at the
+  destination name, a name that becomes too long, a full disk …); the theorems hold for every such
+  fault pattern. -/
+
+/-- **C04_restore_versions_before_delete**: whatever `untrack --restore-versions` does and whichever
+    copies fail, an object that was in the cache is still there afterwards or has been written out
+    byte-for-byte: no version is deleted without having been restored. -/
+theorem C04_restore_versions_before_delete (s : St) (ps : List Path) (blocked : List (Path × Addr)) (a : Addr) (o : Obj)
+    (h : s.cache a = some o) :
+    (s.untrackRestore ps blocked).1.1.cache a = some o ∨ ∃ p, (p, a, o.b) ∈ (s.untrackRestore ps blocked).2 := by
+  by_cases hok : (s.untrackRestore ps blocked).1.2 = .ok
+  · obtain ⟨s1, hc, hall, hw, hst⟩ := untrackRestore_ok_shape s ps blocked hok
+    by_cases hd : a ∈ s.untrackDeletable (s.targetEnts ps)
+    · right
+      have hv : a ∈ (s.targetEnts ps).flatMap s.versionsOf := by
+        unfold St.untrackDeletable at hd
+        exact (List.mem_filter.mp hd).1
+      obtain ⟨p, hp⟩ := restoreItems_covers s _ a hv
+      obtain ⟨o', ho', hin, _⟩ := restoreCopies_all s1 blocked _ hall (p, a) hp
+      simp only at ho' hin
+      rw [hc, h] at ho'
+      cases ho'
+      exact ⟨p, by rw [hw]; exact hin⟩
+    · left
+      rw [hst, foldl_removeObj_keep _ _ a hd]
+      show s1.cache a = some o
+      rw [hc]; exact h
+  · left
+    rw [untrackRestore_fail_cache s ps blocked hok]; exact h
+
+/-- **C04_restore_versions_byte_for_byte**: every file it writes is named after a target path and one
+    of that path's recorded versions, and carries exactly the bytes of that version's cache object. -/
+theorem C04_restore_versions_byte_for_byte (s : St) (ps : List Path) (blocked : List (Path × Addr))
+    (p : Path) (a : Addr) (b : Bytes) (h : (p, a, b) ∈ (s.untrackRestore ps blocked).2) :
+    (p, a) ∈ s.restoreItems (s.targetEnts ps) ∧ ∃ o, s.cache a = some o ∧ o.b = b := by
+  unfold St.untrackRestore at h
+  simp only at h
+  split at h
+  · cases h
+  · have h1 := rematerialise_cache s (s.targetEnts ps)
+    generalize s.rematerialise (s.targetEnts ps) = res at h h1
+    obtain ⟨s1, out⟩ := res
+    have key : ∀ w, w = (s1.restoreCopies blocked (s.restoreItems (s.targetEnts ps))).1 → (p, a, b) ∈ w →
+        (p, a) ∈ s.restoreItems (s.targetEnts ps) ∧ ∃ o, s.cache a = some o ∧ o.b = b := by
+      intro w hw hin
+      subst hw
+      have := restoreCopies_sound s1 blocked _ p a b hin
+      rw [show s1.cache = s.cache from h1] at this
+      exact this
+    cases out <;> simp only at h
+    all_goals first
+      | (cases h; done)
+      | (generalize hrc : s1.restoreCopies blocked _ = rc at h
+         obtain ⟨w, ok⟩ := rc
+         cases ok <;> exact key w (by rw [hrc]) h)
+
+/-- **C04_restore_versions_complete**: when the command succeeds, every recorded version of every
+    target has been written out under the target's name (and the repository is in the state plain
+    `untrack` leaves). -/
+theorem C04_restore_versions_complete (s : St) (ps : List Path) (blocked : List (Path × Addr))
+    (hok : (s.untrackRestore ps blocked).1.2 = .ok) :
+    (∀ x ∈ s.restoreItems (s.targetEnts ps), ∃ o, s.cache x.2 = some o ∧ (x.1, x.2, o.b) ∈ (s.untrackRestore ps blocked).2) ∧
+    (∀ e ∈ s.targetEnts ps, ∀ a ∈ s.versionsOf e, ∃ p, (p, a) ∈ s.restoreItems (s.targetEnts ps)) ∧
+    (s.untrackRestore ps blocked).1 = s.untrack ps := by
+  refine ⟨?_, ?_, untrackRestore_ok s ps blocked hok⟩
+  · obtain ⟨s1, hc, hall, hw, _⟩ := untrackRestore_ok_shape s ps blocked hok
+    intro x hx
+    obtain ⟨o, ho, hin, _⟩ := restoreCopies_all s1 blocked _ hall x hx
+    exact ⟨o, hc ▸ ho, hw ▸ hin⟩
+  · intro e he a ha
+    exact restoreItems_covers s _ a (List.mem_flatMap.mpr ⟨e, he, ha⟩)
+
+/-- two committed versions of one file: restoring writes out both and then deletes both; when the copy
+    of the second version is blocked nothing is deleted (non-vacuity of the three theorems above) -/
+theorem C04_restore_versions_witness :
+    let s0 := ((St.init.userWrite ⟨0, 1⟩ [104]).track {} {} [⟨0, 1⟩]).1
+    let s1 := ((s0.userWrite ⟨0, 1⟩ [105]).carryIn {} none false [⟨0, 1⟩]).1
+    let a1 : Addr := ⟨⟨0, [104]⟩, 1⟩
+    let a2 : Addr := ⟨⟨0, [105]⟩, 1⟩
+    (s1.cache a1).isSome = true ∧ (s1.cache a2).isSome = true ∧
+    (s1.untrackRestore [⟨0, 1⟩] []).1.2 = .ok ∧
+    (s1.untrackRestore [⟨0, 1⟩] []).2 = [(⟨0, 1⟩, a1, [104]), (⟨0, 1⟩, a2, [105])] ∧
+    ((s1.untrackRestore [⟨0, 1⟩] []).1.1.cache a1).isNone = true ∧
+    (s1.untrackRestore [⟨0, 1⟩] [(⟨0, 1⟩, a2)]).1.2 = .panic ∧
+    (s1.untrackRestore [⟨0, 1⟩] [(⟨0, 1⟩, a2)]).2 = [(⟨0, 1⟩, a1, [104])] ∧
+    ((s1.untrackRestore [⟨0, 1⟩] [(⟨0, 1⟩, a2)]).1.1.cache a2).isSome = true := by
+  decide
+
 example : ∃ (s : St) (e : Ent) (r : Rec) (d : Digest) (o : Obj), s.findEnt ⟨0, 1⟩ = some e ∧ s.recs e = some r ∧
     r.cur = some d ∧ s.cache (addrOf ⟨0, 1⟩ d) = some o ∧
     Cmd.gentle (.carryIn [⟨0, 1⟩] none false) = true :=
@@ -84,3 +174,11 @@ open Repo in
 #print axioms C04_track_appends
 open Repo in
 #print axioms C04_carryIn_appends
+open Repo in
+#print axioms C04_restore_versions_before_delete
+open Repo in
+#print axioms C04_restore_versions_byte_for_byte
+open Repo in
+#print axioms C04_restore_versions_complete
+open Repo in
+#print axioms C04_restore_versions_witness
